@@ -1,7 +1,7 @@
 (* C02 — equal functions have identical Bdds: canonical form through any history. *)
 From Coq Require Import List NArith Bool. Import ListNotations.
 From BddVerif Require Import Model.Bdd Model.Apply Model.Ops Proofs.Sem Proofs.Canon Proofs.Reflect
-  Proofs.ApplySem Proofs.ApplyTop Proofs.TernSem Proofs.NotSem Proofs.QuantSem.
+  Proofs.ApplySem Proofs.ApplyTop Proofs.TernSem Proofs.NotSem Proofs.QuantSem Proofs.History.
 Open Scope N_scope.
 
 (* Canonical b: valid ordered diagram (variables strictly increase along edges, links in range),
@@ -61,6 +61,21 @@ Theorem C02_projection_canonical : forall u b vars, Canonical b ->
     (forall v, eval r v = true <-> qspec u vars (eval b) v).
 Proof. exact project_canonical. Qed.
 Print Assumptions C02_projection_canonical.
+
+(* Through any history: `hop` is a language of operation histories over the model's producers (constants,
+   literals, clauses, valuations, dnf/cnf, thresholds, fused binary / ternary / ite, not, exists / for_all,
+   binary-with-quantifier, nested, select / restrict, var_pick / pick, substitute), operands being earlier
+   results; `run` executes it. Every Bdd a history produces is Canonical, hence two results over the same
+   variable count denoting the same function are the same array. *)
+Theorem C02_history_canonical : forall h rs, run h = Ok rs -> Forall Canonical rs.
+Proof. exact history_canonical. Qed.
+Print Assumptions C02_history_canonical.
+
+Theorem C02_history_equal : forall h rs i j a b, run h = Ok rs ->
+  nth_error rs i = Some a -> nth_error rs j = Some b -> nvars a = nvars b ->
+  (forall v, eval a v = eval b v) -> a = b.
+Proof. exact history_equal. Qed.
+Print Assumptions C02_history_equal.
 
 (* non-vacuity: a canonical and a valid-but-non-canonical diagram of the same function *)
 Example C02_nonvacuous :
